@@ -18,7 +18,7 @@ def exact_lines(impl, model):
     implementation side; where the model answers `f0 c ...` (floor 0: curve is numeric) the implementation's
     `ch c ...` line is replaced by the same marker."""
     a = [l for l in impl if not l.startswith(("pcm ", "prop "))]
-    b = [l for l in model if not l.startswith("repack ")]      # model-only line (C05 reads it)
+    b = [l for l in model if not l.startswith(("repack ", "eop "))]      # model-only lines (C05 reads them)
     if len(a) == len(b):
         a = [("F0 " + y.split()[1] if y.startswith("f0 ") and x.startswith("ch ") and x.split()[1] == y.split()[1] else x) for x, y in zip(a, b)]
         b = [("F0 " + y.split()[1] if y.startswith("f0 ") else y) for y in b]
